@@ -62,7 +62,7 @@ def _compact(res, crosscheck):
         elif o['backend'] in ('z3', 'cvc5') and len(samples) < 1 and o['kind'].startswith('post'):
             samples.append({'id': o['id'], 'result': 'unsat', 'backend': o['backend'], 'seconds': o['t']})
     out = {k: res.get(k) for k in ('cls', 'machine', 'table', 'index', 'closure', 'slot_id', 'refused', 'paths',
-                                   'covers', 'srchash', 'time', 'error')}
+                                   'covers', 'srchash', 'time', 'error', 'selfcheck', 'selfcheck_bad')}
     out['counts'] = dict(counts)
     out['times'] = dict(times)
     out['bad'] = bad
@@ -134,6 +134,19 @@ def run_config(cls, machine, nx, seed, nproc=None):
     t0 = time.time()
     with Pool(nproc or common.NCPU) as p:
         res = list(p.imap_unordered(_work, tasks, chunksize=1))
+    # obligations left undecided while all cores were busy get one more attempt, alone, with 4x the budgets
+    retry = [i for i, r in enumerate(res) if any(o.get('status') == 'unknown' for o in r.get('bad', ()))]
+    if retry:
+        from pyvc import solve
+        z, c = solve.Z3_TIMEOUT_MS, solve.CVC5_TIMEOUT_S
+        solve.Z3_TIMEOUT_MS, solve.CVC5_TIMEOUT_S = 4 * z, 4 * c
+        try:
+            for i in retry[:40]:
+                r = res[i]
+                res[i] = _work((r['cls'], r['machine'], r['table'], r['index'], nx, seed))
+                res[i]['retried'] = True
+        finally:
+            solve.Z3_TIMEOUT_MS, solve.CVC5_TIMEOUT_S = z, c
     order = {tn: k for k, tn in enumerate(TABLES)}
     res.sort(key=lambda r: (order.get(r['table'], 9), r['index']))
     return {'cls': cls, 'machine': machine, 'slots': res, 'nslots': nslots, 'wall': time.time() - t0}
